@@ -95,6 +95,17 @@ class Spec:
         self.kv = kv
 
 
+def _expand_range(r):
+    out = []
+    for part in r.split(","):
+        if "-" in part:
+            a, b = part.split("-")
+            out += list(range(int(a), int(b) + 1))
+        else:
+            out.append(int(part))
+    return out
+
+
 def _parse_kv(line):
     kv = {}
     for m in re.finditer(r'(\w+)=("([^"]*)"|\S+)', line):
@@ -109,6 +120,14 @@ def load_harness_file(path):
     cur, cur_kind = [], "common"
     name = os.path.basename(path)
 
+    def add_block(text):
+        first = text.split("\n", 1)[0]
+        kv = _parse_kv(first)
+        m = re.search(r"fn\s+(\w+)\s*\(", text)
+        if not m:
+            raise SystemExit(f"harness block without fn in {path}: {first}")
+        blocks.append((Spec(kv, m.group(1), name), text))
+
     def flush():
         nonlocal cur, cur_kind
         text = "".join(cur)
@@ -116,10 +135,19 @@ def load_harness_file(path):
             common.append(text)
         else:
             kv = _parse_kv(cur[0])
-            m = re.search(r"fn\s+(\w+)\s*\(", text)
-            if not m:
-                raise SystemExit(f"harness block without fn in {path}: {cur[0]}")
-            blocks.append((Spec(kv, m.group(1), name), text))
+            if "rep" in kv:
+                # rep="z:0-31" quick="0-20": one instance per value, `$z` substituted everywhere
+                var, rng = kv["rep"].split(":")
+                vals = _expand_range(rng)
+                q = set(_expand_range(kv["quick"])) if "quick" in kv else None
+                for v in vals:
+                    t = text.replace("$" + var, str(v))
+                    if q is not None:
+                        tier = "quick" if v in q else "thorough"
+                        t = re.sub(r"(// @h [^\n]*)", lambda m: m.group(1) + f" tier={tier}", t, count=1)
+                    add_block(t)
+            else:
+                add_block(text)
         cur = []
 
     for line in open(path):
